@@ -235,6 +235,11 @@ class Folder:
                 return tuple(sorted(args[0]))
             if fn == 'len':
                 return len(args[0])
+            if fn in ('any', 'all', 'min', 'max', 'sum', 'abs') and args:
+                try:
+                    return {'any': any, 'all': all, 'min': min, 'max': max, 'sum': sum, 'abs': abs}[fn](*args)
+                except Exception as ex:
+                    raise Unknown('constant call %s: %s' % (fn, ex))
             if fn == 'chr':
                 return chr(args[0])
             if fn == 'ord':
